@@ -759,6 +759,8 @@ def classify_tensor(t_after, o_after, t_before, tau: float) -> str:
         hits.append("noop")
     if float((ta - oa).abs().max()) <= tol:
         hits.append("copy")
+    if tau >= 1.0 and "lerp" in hits and "copy" in hits:
+        hits.remove("copy")                      # at tau = 1 the update rule IS a copy
     return hits[0] if len(hits) == 1 else "other"
 
 
